@@ -19,7 +19,7 @@ From TLV Require Import Base.Ops Base.Tensor Base.RSum Model.Svd Proofs.SvdProof
   Proofs.SvdNNProofs Proofs.SvdSymeigProofs Proofs.SvdRandProofs Proofs.SvdInterfaceProofs
   Proofs.SvdGramProofs Proofs.SvdSymeigFull Proofs.SvdMaskProofs Proofs.SvdDecisions
   Proofs.SvdWitness Proofs.SvdSymeigShapes Proofs.SvdEckartYoung Proofs.SvdRandE2E Proofs.SvdInterfaceAll Proofs.SvdSymeigBest Base.BigSum Model.SvdConj Proofs.SvdConjProofs Model.SvdValidate Proofs.SvdValidateProofs Proofs.SvdUnique Model.SvdComplex
-  Proofs.SvdRandTS Proofs.SvdComplexR Proofs.SvdComplexModel Proofs.SvdDecisions2 Proofs.SvdComplexFlip Proofs.SvdComplexRand.
+  Proofs.SvdRandTS Proofs.SvdComplexR Proofs.SvdComplexModel Proofs.SvdDecisions2 Proofs.SvdComplexFlip Proofs.SvdComplexRand Proofs.SvdDecisions3 Proofs.SvdComplexMask Proofs.SvdComplexSymeig.
 Import ListNotations.
 Local Open Scope nat_scope.
 
@@ -1473,3 +1473,99 @@ Theorem C05_complex_interface_truncated_e2e_gen : forall (ph : CR -> CR) (lt : C
      (cfrob2 d1 d2 Er Ei <= cfrob2 d1 d2 (fun i j => (cre Ml i j - Br i j)%R) (fun i j => (cim Ml i j - Bi i j)%R))%R).
 Proof. exact complex_interface_truncated_e2e_gen. Qed.
 Print Assumptions C05_complex_interface_truncated_e2e_gen.
+
+(* ROUND 8.  The ROLES inside svd_flip (which factor decides, the argmax axis and the way the winners are picked, which factor is multiplied by
+   conj(signs) and which by the padded signs, the orientation of the two products) as a decision function re-derived from the Python ast on
+   every run (harness tie svd_flip_roles): the conjugate-aware model is flip_by_roles at dec_flip_roles, for every scalar type (FULL). *)
+Theorem C05_flip_roles_factored : forall (K : Type) (k0 k1 : K) (kmul : K -> K -> K) (cj phase : K -> K) (absltb : K -> K -> bool)
+    (U V : list (list K)) (ub : bool),
+  svd_flip_conj k0 k1 kmul cj phase absltb U V ub = flip_by_roles k0 k1 kmul cj phase absltb (dec_flip_roles ub) U V.
+Proof. exact @svd_flip_conj_roles. Qed.
+Print Assumptions C05_flip_roles_factored.
+
+(* non-vacuity of the tie: another role assignment (the conjugate on the other factor) is a different function *)
+Example C05_flip_roles_matter :
+  let kmul := fun a b : Z * Z => ((fst a * fst b - snd a * snd b)%Z, (fst a * snd b + snd a * fst b)%Z) in
+  let cj := fun a : Z * Z => (fst a, (- snd a)%Z) in
+  let U := [[(0, 1)%Z]] in let V := [[(1, 0)%Z]] in
+  flip_by_roles (0, 0)%Z (1, 0)%Z kmul cj (fun z => z) (fun _ _ => false) (FacU, 0, FacU, FacV, ByCols, ByRows) U V
+  <> flip_by_roles (0, 0)%Z (1, 0)%Z kmul cj (fun z => z) (fun _ _ => false) (FacU, 0, FacV, FacU, ByCols, ByRows) U V.
+Proof. exact roles_matter. Qed.
+
+(* The mask-imputation loop over ANY scalar structure (FULL): the invariant of Model/Svd.v mask_loop needs a single algebraic fact,
+   x * 1 + r * (1 - 1) = x - every imputed matrix is d1 x d2 and keeps the entries where the mask is 1, and after >= 1 passes the returned
+   triple is the back end's answer on the LAST imputed matrix (the real-number C05 mask theorems are the instance Rops). *)
+Theorem C05_mask_loop_generic : forall (F : Type) (Op : fops F),
+  (forall x r, fadd Op (fmul Op x (f1 Op)) (fmul Op r (fsub Op (f1 Op) (f1 Op))) = x) ->
+  forall d1 d2 (svd_fun : nat -> list (list F) -> triple F) mask,
+  rect d1 d2 mask ->
+  (forall c X, rect d1 d2 X -> length (fst (fst (svd_fun c X))) = d1) ->
+  forall iters call M t, rect d1 d2 M -> length (fst (fst t)) = d1 ->
+  let '(M', t') := mask_loop Op svd_fun d2 mask iters call M t in
+  rect d1 d2 M' /\
+  (forall i j, i < d1 -> j < d2 -> mget Op mask i j = f1 Op -> mget Op M' i j = mget Op M i j) /\
+  (0 < iters -> t' = svd_fun (call + iters - 1) M').
+Proof. exact @mask_loop_spec_g. Qed.
+Print Assumptions C05_mask_loop_generic.
+
+(* svd_interface WITH A MASK on a COMPLEX matrix, end to end (FULL; method truncated_svd, 1 <= n_eigenvecs <= min(shape), >= 1 imputation pass, any
+   flip setting, ph = np.sign, lt = magnitude comparison, LAPACK's answer meeting the complex SVD contract on every matrix it is handed): the
+   model's svd_interface_cmask at the complex scalars C = R x R (CopsR) with the conjugate-aware flip returns the sign-resolved truncated SVD of
+   the LAST imputed matrix Mlast - S = leading singular values of LAPACK's answer on Mlast, real, non-negative, non-increasing; Hermitian-
+   orthonormal U columns / V rows; error = discarded squared singular values; best approximation of rank <= r - and Mlast agrees with the
+   input on every observed entry (mask = 1 + 0i). *)
+Theorem C05_complex_interface_masked_e2e : forall (ph : CR -> CR) (lt : CR -> CR -> bool) (orc : nat -> list (list CR) -> bool -> triple CR)
+    (funs : fname -> nat -> list (list CR) -> triple CR) d1 d2 (Ml mask : list (list CR)) r (flip ub : bool) iters U S V,
+  sign_like ph -> abs_lt lt ->
+  rect d1 d2 Ml -> rect d1 d2 mask ->
+  (forall c X, rect d1 d2 X -> forall f, csvd_contract d1 d2 (cre X) (cim X) f (orc c X f)) ->
+  (forall c X, funs FTruncated c X = truncated_svd (orc c X) d1 d2 (Some r)) ->
+  1 <= r <= Nat.min d1 d2 -> 1 <= iters ->
+  svd_interface_cmask CopsR (flipR ph lt) funs MTruncated d2 Ml (Some r) flip ub (Some mask) iters = Ok (U, S, V) ->
+  exists Mlast c,
+    rect d1 d2 Mlast /\
+    (forall i j, i < d1 -> j < d2 -> cre mask i j = 1%R -> cim mask i j = 0%R ->
+       cre Mlast i j = cre Ml i j /\ cim Mlast i j = cim Ml i j) /\
+    let So := snd (fst (orc c Mlast false)) in
+    let Er := fun i j => (cre Mlast i j - cprod_re r (cre U) (cim U) (cre V) (cim V) (sre S) i j)%R in
+    let Ei := fun i j => (cim Mlast i j - cprod_im r (cre U) (cim U) (cre V) (cim V) (sre S) i j)%R in
+    S = firstn r So /\
+    (forall t, t < r -> snd (nth t S (0%R, 0%R)) = 0%R /\ (0 <= sre S t)%R) /\
+    (forall i j, i <= j -> j < r -> (sre S j <= sre S i)%R) /\
+    herm_cols d1 r (cre U) (cim U) /\ herm_rows r d2 (cre V) (cim V) /\
+    cfrob2 d1 d2 Er Ei = rsum (Nat.min d1 d2 - r) (fun t => ((sre So (r + t)%nat)^2)%R) /\
+    (forall Br Bi, crank_le d1 d2 r Br Bi ->
+       (cfrob2 d1 d2 Er Ei <= cfrob2 d1 d2 (fun i j => (cre Mlast i j - Br i j)%R) (fun i j => (cim Mlast i j - Bi i j)%R))%R).
+Proof. exact complex_interface_masked_e2e. Qed.
+Print Assumptions C05_complex_interface_masked_e2e.
+
+(* non-vacuity: a 1 x 1 request [[2i]], fully observed, two imputation passes, with the exact SVD [[z]] = [[z / |z|]] diag(|z|) [[1]] as LAPACK's answer
+   on EVERY 1 x 1 matrix (orc11), np.sign and the magnitude comparison: every hypothesis of C05_complex_interface_masked_e2e holds *)
+Example C05_complex_masked_hyps_satisfiable :
+  let ph := fun z : CR => ((fst z / sqrt (norm2 z))%R, (snd z / sqrt (norm2 z))%R) in
+  let lt := fun a b : CR => if Rlt_dec (norm2 a) (norm2 b) then true else false in
+  let funs := fun (_ : fname) (_ : nat) X => truncated_svd (orc11 X) 1 1 (Some 1) in
+  let Ml := [[(0%R, 2%R)]] in let mask := [[c1R]] in
+  sign_like ph /\ abs_lt lt /\ rect 1 1 Ml /\ rect 1 1 mask /\
+  (forall (c : nat) X, rect 1 1 X -> forall f, csvd_contract 1 1 (cre X) (cim X) f (orc11 X f)) /\
+  (forall c X, funs FTruncated c X = truncated_svd (orc11 X) 1 1 (Some 1)) /\ 1 <= 1 <= Nat.min 1 1 /\ 1 <= 2 /\
+  exists U S V, svd_interface_cmask CopsR (flipR ph lt) funs MTruncated 1 Ml (Some 1) true true (Some mask) 2 = Ok (U, S, V).
+Proof. exact complex_masked_hyps_satisfiable. Qed.
+
+(* Output shapes of the conjugate-aware symeig_svd (Model/SvdConj.v symeig_svd_conj, the code as of d995974) for EVERY scalar type, conjugation,
+   square-root function, eps and eigh answer of the right shape - in particular complex input (FULL): U : d1 x min(d1, k), S : min(d1, d2, k),
+   V : min(d2, k) x d2 for every shape and every n_eigenvecs incl. None, 0 and > max(shape) (k = the clamped request) *)
+Theorem C05_symeig_conj_shapes : forall (F : Type) (Op : fops F) (cj : F -> F) (eigh : list (list F) -> list F * list (list F)) (sq : F -> F) eps
+    (M : list (list F)) d1 d2 n,
+  rect d1 d2 M ->
+  (forall G, let d := if d2 <? d1 then d1 else d2 in length (fst (eigh G)) = d /\ rect d d (snd (eigh G))) ->
+  let k := n_kept d1 d2 n in
+  shape3 (symeig_svd_conj Op cj eigh sq eps M d1 d2 n) d1 (Nat.min d1 k) (Nat.min (Nat.min d1 d2) k) (Nat.min d2 k) d2.
+Proof. exact @symeig_conj_shapes. Qed.
+Print Assumptions C05_symeig_conj_shapes.
+
+Example C05_symeig_conj_shapes_hyps_satisfiable :
+  let eigh := fun _ : list (list (nat * nat)) => ([(0, 0); (0, 0)], [[(1, 0); (0, 0)]; [(0, 0); (1, 0)]]) in
+  rect 2 1 [[(1, 0)]; [(0, 1)]] /\
+  (forall G, let d := if 1 <? 2 then 2 else 1 in length (fst (eigh G)) = d /\ rect d d (snd (eigh G))).
+Proof. exact symeig_conj_shapes_witness. Qed.
